@@ -39,10 +39,7 @@ Theorem C19_progress_otherwise : forall nfkd r m w,
   status nfkd r m w = Progress (progress_status r m) /\
   (truthy (r_info r) = true -> progress_status r m = r_info r) /\
   (truthy (r_info r) = false -> r_done m = false -> progress_status r m = r_info m).
-Proof.
-  intros nfkd r m w K E D. split; [exact (status_progress nfkd r m w K E D)|].
-  unfold progress_status. split; intros H; rewrite H; [reflexivity|]. intros ->. reflexivity.
-Qed.
+Proof. exact progress_otherwise_full. Qed.
 Print Assumptions C19_progress_otherwise.
 
 Theorem C19_progress_only_if : forall nfkd r m w st,
@@ -67,10 +64,7 @@ Theorem C19_other_writer :
   (forall c w, render_jobid c w <> makezip_jobid c) /\
   (forall c c' w w', no_char 58%N c -> no_char 58%N c' -> render_jobid c w = render_jobid c' w' -> c = c' /\ w = w') /\
   (forall c c' w, no_char 58%N c -> no_char 58%N c' -> render_jobid c w <> makezip_jobid c').
-Proof.
-  split; [exact status_local|]. split; [exact render_jobid_inj_w|]. split; [exact render_ne_makezip|].
-  split; [exact render_jobid_inj|exact render_ne_makezip_any].
-Qed.
+Proof. exact other_writer_full. Qed.
 Print Assumptions C19_other_writer.
 
 (* Content-Disposition: for every suggested filename without control characters and lone surrogates,
